@@ -134,6 +134,38 @@ def retry_wait_shape(eng):
             tgt = n.targets[0] if isinstance(n, ast.Assign) else n.target
             wt = dotted(tgt)
             lim = next(dotted(a) for a in n.value.args if dotted(a) != budget)
+        # wait, flag = _plan(timeout, retry_interval)   - a helper whose two returns are the arms of that very if/else, as tuples or as
+        # records of a NamedTuple (positional or keyword fields)
+        if isinstance(n, ast.Assign) and len(n.targets) == 1 and isinstance(n.targets[0], ast.Tuple) and isinstance(n.value, ast.Call):
+            from sa.norm import tuple_elts
+            for g in eng.typer.call_targets(retry, n.value, dispatch=False):
+                if not hasattr(g, "node") or isinstance(g.node, ast.Lambda):
+                    continue
+                gps = [a.arg for a in g.params()]
+                if g.cls is not None and gps and not g.has_decorator("staticmethod"):
+                    gps = gps[1:]
+                amap = {pn: av for pn, av in zip(gps, n.value.args)}
+                amap.update({k.arg: k.value for k in n.value.keywords if k.arg})
+                body = [st for st in g.node.body if not (isinstance(st, ast.Expr) and isinstance(st.value, ast.Constant))]
+                iff = body[0] if body and isinstance(body[0], ast.If) else None
+                if iff is None or len(iff.body) != 1 or not isinstance(iff.body[0], ast.Return):
+                    continue
+                other = iff.orelse[0] if len(iff.orelse) == 1 else (body[1] if len(body) == 2 and not iff.orelse else None)
+                if not isinstance(other, ast.Return):
+                    continue
+
+                class _Sub(ast.NodeTransformer):
+                    def visit_Name(self, node):
+                        return amap.get(node.id, node) if isinstance(node.ctx, ast.Load) else node
+                import copy
+                r1 = [_Sub().visit(copy.deepcopy(x)) for x in tuple_elts(g, iff.body[0].value)]
+                r2 = [_Sub().visit(copy.deepcopy(x)) for x in tuple_elts(g, other.value)]
+                test = _Sub().visit(copy.deepcopy(iff.test))
+                if len(r1) == len(r2) == len(n.targets[0].elts):
+                    for tgt, a_, b_ in zip(n.targets[0].elts, r1, r2):
+                        lim_ = smaller_on_true(test, a_, b_)
+                        if lim_ is not None and dotted(tgt):
+                            wt, lim = dotted(tgt), lim_
     # the select() calls, in _retry itself or in a private helper it hands the wait to (names are mapped back through the call)
     from sa.norm import nodes_inl
     inl = list(nodes_inl(retry))
@@ -189,6 +221,7 @@ def retry_wait_shape(eng):
 
 
 def check_shapes(eng, run):
+    from sa.norm import tail_delegate as _tail_delegate
     db = eng.db
     retry, ok, unbounded = retry_wait_shape(eng)
     if not ok:
@@ -203,7 +236,7 @@ def check_shapes(eng, run):
     # C11.err: exhaustion -> ETIMEDOUT
     for q in ("lowlevel.api_sync.transports.base_selector:SelectorBaseTransport._retry", "lowlevel.api_sync.endpoints.stream:_DataReceiverImpl.receive",
               "lowlevel.api_sync.endpoints.stream:_BufferedReceiverImpl.receive"):
-        fn = db.fn(q)
+        fn = _tail_delegate(db.fn(q))  # (the loop may live in a private helper the function ends in)
         last = fn.node.body[-1]
         # after the retry loop every path raises, and one of those raises is ETIMEDOUT (the other may be the end-of-stream error, in either order)
         loops_ = [i for i, st in enumerate(fn.node.body) if isinstance(st, (ast.While, ast.For)) or any(isinstance(x, (ast.While, ast.For)) for x in ast.walk(st))]
@@ -216,7 +249,8 @@ def check_shapes(eng, run):
     lw = db.fn("lowlevel._utils:lock_with_timeout")
     # the blocking acquire is the right operand of `timeout == 0 or ...` and its failure raises ETIMEDOUT
     ok = False
-    for n in own_nodes(lw.node):
+    from sa.norm import nodes_inl as _nodes_inl
+    for n, _owner in _nodes_inl(lw):  # (also in a private helper that is given the lock and the budget under their own names)
         if isinstance(n, ast.If) and isinstance(n.test, ast.BoolOp) and isinstance(n.test.op, ast.Or):
             first = ast.unparse(n.test.values[0]).replace(" ", "")
             rest = ast.unparse(n.test.values[-1])
@@ -227,7 +261,7 @@ def check_shapes(eng, run):
     run.ob("C11.zero", lw.short, ok)
     # zero-budget drain arm of the sync receivers: continue only while reads are full
     for q in ("lowlevel.api_sync.endpoints.stream:_DataReceiverImpl.receive", "lowlevel.api_sync.endpoints.stream:_BufferedReceiverImpl.receive"):
-        fn = db.fn(q)
+        fn = _tail_delegate(db.fn(q))  # (the loop may live in a private helper the function ends in)
         ok = False
         for n in own_nodes(fn.node):
             from sa.norm import cmp_canon
